@@ -264,9 +264,11 @@ def execute(case, keep_text=False):
         if key not in tabs:
             rs = np.random.RandomState(H(cfg['tabseed'], pair) % 2**32)
             nT = rs.randint(3, 6)
-            T = np.sort(rs.uniform(100, 3000, nT)).round(1)
-            wnA = np.sort(rs.uniform(20, 900, rs.randint(4, 12))).round(4)
-            wnB = np.sort(rs.uniform(1000, 5000, rs.randint(4, 12))).round(4)
+            T = ST.distinct_ints(rs, 1000, 30000, nT) / 10.0
+            wnA = ST.distinct_ints(rs, 200000, 9000000,
+                                   rs.randint(4, 12)) / 1e4
+            wnB = ST.distinct_ints(rs, 10000000, 50000000,
+                                   rs.randint(4, 12)) / 1e4
             groups = [(wnA, list(range(nT)))]
             if cfg.get('cia_split'):
                 # second wavenumber range present only for a sub-range of T
